@@ -159,6 +159,21 @@ def run(ctx):
                                   witness="disabled filters come back enabled (or vice versa) after save and load")
                 else:
                     ctx.holds("N1", "loader: %r -> name %r, description %r, enabled %r" % (wc.fields["hash_comments"], wn, wd, we))
+        # the markers are the caller's choice: non-ASCII text and characters that mean something to a regular expression
+        custom = ("# r\u00e8gle(1)*:", "# d\u00e9sc[.]+:")
+        try:
+            le2 = loader_eval(ctx, R, PR, name_attr, desc_attr, markers=custom)
+        except Exception:
+            le2 = None
+        if le2 is not None:
+            _r2, entries2, _fs = le2
+            got2 = [(e_.get("name"), e_.get("description")) if isinstance(e_, dict) else e_ for e_ in entries2]
+            if got2 == [("n1", "d1"), ("n2", ""), ("Unnamed rule 3", "")]:
+                ctx.holds("N1", "loader with the markers %r / %r: the same names and descriptions" % custom)
+            else:
+                ctx.violation("N1", r, "reader-marker", "with the name / description markers %r / %r the loader reads %r for comments that carry "
+                              "the names n1, n2 and the description d1" % (custom[0], custom[1], got2), node=r.node,
+                              witness="a set saved with custom markers comes back with parts of the marker in its names")
         if reqs == ['"fileinto"', '"copy"', '"imap4flags"'] or reqs == ["fileinto", "copy", "imap4flags"]:
             ctx.rule("N4", "order and requires")
             ctx.holds("N4", "loader requires every capability of every require command, string or list form (%r)" % (reqs,))
@@ -344,7 +359,7 @@ def run(ctx):
 
 
 
-def loader_eval(ctx, R, PR, name_attr, desc_attr):
+def loader_eval(ctx, R, PR, name_attr, desc_attr, markers=None):
     """Finite-domain evaluation of the loader over a parsed script of five top-level commands (two require commands - one
     capability written as a string, two written as a list - and three filters: name + description, name only, no marker).
     Returns (requires, entries) - the arguments of require() in call order and the appended entries - or None when the
@@ -364,6 +379,8 @@ def loader_eval(ctx, R, PR, name_attr, desc_attr):
     NP, DP = pre.get(name_attr), pre.get(desc_attr)
     if NP is None or DP is None:
         return None
+    if markers is not None:
+        NP, DP = markers  # the markers are constructor arguments: any text the caller chose
     mk = fd.Rec
     f1 = mk("IfCommand", hash_comments=[(NP + "n1").encode(), (DP + "d1").encode()], disabled=False, tag="f1")
     f2 = mk("IfCommand", hash_comments=[(NP + "n2").encode()], disabled=True, tag="f2")
